@@ -33,8 +33,10 @@ SecondElse(p) == LET st == RFold(Number(p), 1, St0) IN
                  st.stack # <<>> /\ st.stack[Len(st.stack)].else
 
 \* ---- conditions ----------------------------------------------------------------
+\* DH is defined with a hexadecimal spelling (.define DH 0x10): a define stands for its number in every documented notation
 Prefix == <<[k |-> "define", n |-> "D1", v |-> 1], [k |-> "define", n |-> "D0", v |-> 0],
-            [k |-> "define", n |-> "D2", v |-> 2], Mark(1), Mark(2), Mark(3), [k |-> "label", n |-> "s1"]>>
+            [k |-> "define", n |-> "D2", v |-> 2], [k |-> "define", n |-> "DH", v |-> 16],
+            Mark(1), Mark(2), Mark(3), [k |-> "label", n |-> "s1"]>>
 Wrap(c) == Prefix \o <<If(c), Mark(17), [k |-> "else"], Mark(34), [k |-> "endif"], Mark(51)>>
 
 AllOps == {"==", "<", ">", "<=", ">=", "&&", "||"}
@@ -52,7 +54,14 @@ Par3(a, b, c, o1, o2) == {<<LP>> \o a \o <<O(o1)>> \o b \o <<RP, O(o2)>> \o c,
                           a \o <<O(o1), NOT, LP>> \o b \o <<O(o2)>> \o c \o <<RP>>,
                           <<LP, LP>> \o a \o <<RP, O(o1)>> \o b \o <<RP, O(o2)>> \o c}
 
-BadConds == {<<>>, <<Nm("U")>>, <<N(1), O("==")>>, <<O("=="), N(1)>>, <<N(1), N(2)>>, <<LP, N(1)>>,
+\* a number with all 32 bits set (rendered 4294967295, -1 as a C int) is not zero; hex-spelled defines; only used as a truth
+\* value or with == (its order relative to other numbers depends on the evaluator's width, which the property leaves open)
+STR == [t |-> "str"]
+WideConds == {<<N(-1)>>, <<NOT, N(-1)>>, <<N(-1), O("&&"), N(1)>>, <<N(0), O("||"), N(-1)>>, <<LP, N(-1), RP>>,
+              <<N(-1), O("=="), N(-1)>>, <<N(-1), O("=="), N(1)>>,
+              <<Nm("DH")>>, <<Nm("DH"), O("=="), N(16)>>, <<Nm("DH"), O(">"), N(15)>>, <<Nm("DH"), O("<"), N(16)>>, <<NOT, Nm("DH")>>}
+BadConds == {<<STR>>, <<N(1), O("=="), STR>>, <<STR, O("=="), N(1)>>, <<N(1), O("&&"), STR>>,
+             <<>>, <<Nm("U")>>, <<N(1), O("==")>>, <<O("=="), N(1)>>, <<N(1), N(2)>>, <<LP, N(1)>>,
              <<N(1), RP>>, <<LP, RP>>, <<N(1), O("&&"), O("||"), N(0)>>, <<NOT>>, <<N(1), O("=="), Nm("U")>>,
              <<LP, N(1), O("=="), N(1)>>, <<N(1), O("<"), N(2), RP>>, <<Df("U"), N(1)>>}
 
@@ -67,6 +76,7 @@ IsCond(c) ==
                      o1 \in AllOps, o2 \in AllOps, o3 \in AllOps :
         c = a \o <<O(o1)>> \o b \o <<O(o2)>> \o d \o <<O(o3)>> \o e
   \/ c \in BadConds
+  \/ c \in WideConds
 
 InitS == prog = <<>>
 NextS == Len(prog) < MaxLen /\ \E s \in Alphabet :
